@@ -54,7 +54,7 @@ impl OutputFormat for XBin {
 
         let mut flags = 0;
         let fonts = analyze_font_usage(buf);
-        let Some(font) = buf.get_font(fonts[0]) else {
+        let Some(font) = buf.get_font(fonts.first().copied().unwrap_or(0)) else {
             return Err(SavingError::NoFontFound.into());
         };
         if font.length != 256 {
@@ -180,6 +180,8 @@ impl OutputFormat for XBin {
         let height = data[o] as i32 + ((data[o + 1] as i32) << 8);
         result.set_height(height);
         result.layers[0].set_size((width, height));
+        // the fresh 80x25 layer has 25 allocated rows; a picture with fewer rows must not keep them
+        result.layers[0].lines.truncate(height as usize);
         o += 2;
         let mut font_size = data[o];
         if font_size == 0 {
